@@ -171,6 +171,7 @@ def _g_memory(rep):
     rep.guarded("R-C03-kernel-bounds", C15.rule_kernel_bounds, "R-C03-kernel-bounds")
     rep.guarded("R-C03-fft-capacity", C03.rule_fft_capacity)
     rep.guarded("R-C03-fft-capacity", C03.rule_fft_buffers)
+    rep.guarded("R-C03-fft-capacity", C03.rule_fft_work_buffers)
     rep.guarded("R-C03-panic-sites", C03.rule_panics)
     rep.guarded("R-C03-validate-exact", C03.rule_validate_exact)
     rep.floor("R-C03-chan", 26)
